@@ -55,16 +55,19 @@ GE = {"max_backoff": {"max_backoff", "min_backoff"}, "min_backoff": {"min_backof
 
 
 class BackoffInterp:
-    def __init__(self, ctx: Ctx, inner: FuncInfo, rule: str):
+    def __init__(self, ctx: Ctx, inner: FuncInfo, rule: str, env: dict | None = None):
         self.ctx, self.f, self.rule = ctx, inner, rule
         self.problems: list[tuple[str, ast.AST]] = []
         self.pows = 0
+        self.env = env or {}
 
     def ev(self, e: ast.AST, depth=0) -> Abs:
         if depth > 12:
             raise AnalysisError(f"{self.f.qualname}: expression nesting too deep for the back-off interpreter")
         if isinstance(e, ast.Constant) and isinstance(e.value, (int, float)):
             return Abs("const")
+        if isinstance(e, ast.Name) and e.id in self.env:
+            return self.env[e.id]
         if isinstance(e, ast.Name):
             if e.id == "retry_number":
                 return Abs("nondecr")
@@ -105,6 +108,16 @@ class BackoffInterp:
                 raise AnalysisError(f"{self.f.qualname}: unsupported timedelta construction {unparse(e)}")
             if d in ("int", "float") and len(e.args) == 1:
                 return self.ev(e.args[0], depth + 1)
+            # a small pure helper of the same module (`_clamp(value, lower, upper)`): evaluate its single return with the arguments bound
+            for cal in self.ctx.res.callees(self.f, e, record=False):
+                rets = C.own_returns(cal)
+                if cal.cls is None and len(rets) == 1 and rets[0].value is not None and not cal.is_async:
+                    binding = C.bind_call(cal, e)
+                    sub = BackoffInterp(self.ctx, cal, self.rule, {k: self.ev(v, depth + 1) for k, v in binding.items()})
+                    r = sub.ev(rets[0].value, depth + 1)
+                    self.problems += sub.problems
+                    self.pows += sub.pows
+                    return r
             raise AnalysisError(f"{self.f.qualname}: cannot interpret call {unparse(e)[:60]} in the back-off expression")
         if isinstance(e, ast.BinOp):
             if isinstance(e.op, ast.Pow):
@@ -181,8 +194,9 @@ def overdue_siblings(ctx: Ctx, rule: str) -> None:
         g = ctx.icfg(f, substitute=True)
         inlined_calls = {id(c.ast) for c in g.nodes if c.kind == "call" and c.meta.get("inlined")}
         tests = [t for t in g.nodes if t.kind == "test"]
-        ok = len(tests) == 1 and isinstance(tests[0].ast, ast.Compare) and isinstance(tests[0].ast.ops[0], (ast.Is, ast.IsNot)) \
-            and dotted(tests[0].ast.left) == "self.ttl" and C.is_const(tests[0].ast.comparators[0], None)
+        t0 = C.inline_locals(tests[0].func, tests[0].ast) if len(tests) == 1 else None
+        ok = len(tests) == 1 and isinstance(t0, ast.Compare) and isinstance(t0.ops[0], (ast.Is, ast.IsNot)) \
+            and dotted(t0.left) == "self.ttl" and C.is_const(t0.comparators[0], None)
         ctx.check(ok, rule, f, f"{f.short()}: 'no ttl' decided by `self.ttl is None`", "identity test (a zero ttl is a ttl)",
                   f"{f.short()} decides 'no time-to-live' with {[t.label for t in tests]} instead of `self.ttl is None`: e.g. a zero timedelta is falsy and would never expire",
                   instance=f"{f.short()}: ttl None test")
@@ -205,8 +219,9 @@ def overdue_siblings(ctx: Ctx, rule: str) -> None:
         got = [x for x in rets if x.id in r]
         ok = False
         why = ""
-        if len(got) == 1 and isinstance(got[0].ast.value, ast.Compare) and len(got[0].ast.value.ops) == 1:
-            c = got[0].ast.value
+        gv = C.inline_locals(got[0].func, got[0].ast.value) if len(got) == 1 else None
+        if len(got) == 1 and isinstance(gv, ast.Compare) and len(gv.ops) == 1:
+            c = gv
             l, rr, op = c.left, c.comparators[0], c.ops[0]
             if isinstance(op, ast.Lt):
                 l, rr, op = rr, l, ast.Gt()
